@@ -45,6 +45,8 @@ def state_parts(u, td, B, N, A):
                                                  AND(ag.at(b) <= M.at(b) - 1, am.at(b, 0) == AND(cn.at(b) != 0, ag.at(b) < M.at(b) - 1))))),
         # running objective: longest closed sub-tour so far (ghost A) or the open path of the current agent
         ("objective", u.forall((B,), lambda b: IMPL(NOT(finished(u, td, b, N)), mx.at(b) == ite(A(b) >= cl.at(b), A(b), cl.at(b))))),
+        # the running maximum dominates the open path of the current agent (also after the last customer)
+        ("max-dominates-current", u.forall((B,), lambda b: mx.at(b) >= cl.at(b))),
     ]
 
 
@@ -92,7 +94,7 @@ def _step(u, pad):
                                 pre["current_length"].at(bb) + dist(locs, bb, pre["current_node"].at(bb), 0)), A(bb))
         u.prove("step.not-finished-returns-are-not-final", IMPL(AND(NOT(fin0), ab == 0), NOT(fin1)), tags=("C03",))
         for lbl, f in state_parts(u, out, B, N, A2):
-            u.prove(f"step.inv.{lbl}", IMPL(NOT(fin0), f), tags=("C01", "C03"))
+            u.prove(f"step.inv.{lbl}", f if lbl == "max-dominates-current" else IMPL(NOT(fin0), f), tags=("C01", "C03"))
         final = ite(A(b) >= cl + dist(locs, b, prev, ab) + dist(locs, b, ab, 0), A(b), cl + dist(locs, b, prev, ab) + dist(locs, b, ab, 0))
         u.prove("step.objective.final", IMPL(AND(NOT(fin0), fin1), AND(out["max_subtour_length"].at(b) == final,
                                                                     out["reward"].at(b) == -final)), tags=("C03",))
